@@ -1,0 +1,34 @@
+// Copyright 2026. Contracts for deductive verification (gowp).
+// This file contains only comments; it is compiled only with -tags verif
+// and adds nothing to the package.
+
+//go:build verif
+
+package graph
+
+// Interface-level contracts (A8): a Graph's methods are read-only; Out may
+// return storage that existed before the call (so writing to it is a frame
+// violation for the caller).
+//@ assume pure Graph.NumNodes
+//@ assume func Graph.Out
+//@   results out
+//@   ensures true
+//@   assigns nothing
+
+//@ spec sortedInts(a []int) bool = forall i in 0..len(a)-1 :: a[i] <= a[i+1]
+
+//@ assume func sort.Ints
+//@   trusted standard library: sorts its argument in place and touches nothing else
+//@   ensures sortedInts(x)
+//@   assigns x[*]
+
+// Equal (C18, C20): compares adjacency lists as multisets without modifying
+// either graph: the lists are copied into a scratch buffer before sorting.
+//@ func Equal
+//@   model int
+//@   ensures [sizes] result ==> g1.NumNodes() == g2.NumNodes()
+//@   loop 1 (i) modifies nothing
+//@   loop 1 (i) invariant isnil(temp) || fresh(temp)
+//@   loop 2 (ei) invariant eq
+//@   loop 3 (ei) invariant true
+//@   assigns nothing
